@@ -47,7 +47,9 @@ ToolVerdict(e) ==
   ELSE "ok"
 
 \* ---------------------------------------------------------------------------------------------
-\* C01: accepted, nothing left over, projection = tree, in both views
+\* C01: accepted, nothing left over, projection = tree, in the raw and merged DOM views and through
+\* the information-set accessors of xml_info (view "info", present in events of newer harnesses)
+HasInfo(e) == "info" \in DOMAIN e
 ViewIdeal(v, tree) == Accepted(v) /\ HasProj(v) /\ "errs" \notin DOMAIN v.proj /\ ObsTree(v.proj) = tree
 
 (***************************************************************************)
@@ -111,14 +113,17 @@ AsIsAppliesC01(name, e) ==
 
 C01Names == {"no-line-end-normalization", "required-attribute-materialized"}
 
+AllViewsIdeal(e, tree) ==
+  ViewIdeal(e.raw, tree) /\ ViewIdeal(e.merged, tree) /\ (HasInfo(e) => ViewIdeal(e.info, tree))
+
 C01Verdict(e, rec) ==
   IF ~(rec.wf /\ rec.inprofile) THEN [verdict |-> "ok"]
-  ELSE IF ViewIdeal(e.raw, rec.tree) /\ ViewIdeal(e.merged, rec.tree) THEN [verdict |-> "ok"]
+  ELSE IF AllViewsIdeal(e, rec.tree) THEN [verdict |-> "ok"]
   ELSE IF "nesting-depth-limit" \in Open /\ TooDeep(e) /\ e.raw.parse = "err" /\ e.merged.parse = "err"
+          /\ (HasInfo(e) => e.info.parse = "err")
        THEN [verdict |-> "nesting-depth-limit", depth |-> MaxNest(e.toks, 0, 0)]
   ELSE LET app == { n \in C01Names \cap Open : AsIsAppliesC01(n, e) }
-           m == { S \in (SUBSET app) \ {{}} :
-                    ViewIdeal(e.raw, AsIsTreeC01(S, e)) /\ ViewIdeal(e.merged, AsIsTreeC01(S, e)) }
+           m == { S \in (SUBSET app) \ {{}} : AllViewsIdeal(e, AsIsTreeC01(S, e)) }
        IN IF m # {} THEN LET S == CHOOSE S \in m : \A T \in m : Cardinality(S) <= Cardinality(T)
                          IN [verdict |-> CHOOSE n \in S : TRUE, findings |-> S]
           ELSE [verdict |-> "VIOLATION",
@@ -126,7 +131,8 @@ C01Verdict(e, rec) ==
                         THEN "well-formed document of the profile not accepted (or input left over)"
                         ELSE "the document does not expose the information items the text denotes",
                 raw |-> e.raw.parse, merged |-> e.merged.parse,
-                rawok |-> ViewIdeal(e.raw, rec.tree), mergedok |-> ViewIdeal(e.merged, rec.tree)]
+                rawok |-> ViewIdeal(e.raw, rec.tree), mergedok |-> ViewIdeal(e.merged, rec.tree),
+                infook |-> (HasInfo(e) => ViewIdeal(e.info, rec.tree))]
 
 \* ---------------------------------------------------------------------------------------------
 \* C02: ill-formed => Err or non-empty rest, in both entry points.  A name with two colons is an
@@ -156,7 +162,7 @@ AsIsAppliesC02(name, e, rec) ==
 
 C02Verdict(e, rec) ==
   IF rec.wf \/ NsOnly(rec.viol) THEN [verdict |-> "ok"]
-  ELSE IF ~Accepted(e.raw) /\ ~Accepted(e.merged) THEN [verdict |-> "ok"]
+  ELSE IF ~Accepted(e.raw) /\ ~Accepted(e.merged) /\ (HasInfo(e) => ~Accepted(e.info)) THEN [verdict |-> "ok"]
   ELSE LET m == { n \in C02Names \cap Open : AsIsAppliesC02(n, e, rec) }
        IN IF m # {} THEN [verdict |-> CHOOSE n \in m : TRUE, viol |-> rec.viol]
           ELSE [verdict |-> "VIOLATION", why |-> "ill-formed input returned as a completely parsed document",
